@@ -31,7 +31,7 @@ PROPS['C03'] = dict(
     required_theorems=['ellipsoid_constants', 'llh2xyz_closed_form', 'llh2xyz_closed_form_init', 'on_ellipsoid',
                        'xyz2llh_fixed_point', 'fixed_point_algebra', 'xyz2llh_roundtrip_at_fixed_point', 'lon_range',
                        'llh2xyz_equator', 'llh2xyz_poles', 'llh2xyz_mirror', 'llh2xyz_lon_period',
-                       'llh2xyz_opposite_meridian', 'llh2xyz_height_along_normal'],
+                       'llh2xyz_opposite_meridian', 'llh2xyz_height_along_normal', 'llh2xyz_west'],
     tie_functions=['Convert.llh2xyz', 'Convert.xyz2llh'],
     tie_n={'quick': 4000, 'thorough': 200000},
     probe='C03.py',
